@@ -76,8 +76,7 @@ func VerifC10Clean() {
 	prune := verifParam("prune", 0)
 	h := newHist(1000)
 	t := h.newTwin()
-	if verifParam("rich", 0) == 1 {
-		h.richState()
+	if h.setupState() > 0 {
 		for _, hd := range h.hdr[1:] {
 			t.repo.ProcessHeader(h.ctx, hd)
 		}
@@ -117,8 +116,7 @@ func VerifC11SaveLoad() {
 	prune := verifParam("prune", 0)
 	h := newHist(1000)
 	t := h.newTwin() // never saved or loaded
-	if verifParam("rich", 0) == 1 {
-		h.richState()
+	if h.setupState() > 0 {
 		for _, hd := range h.hdr[1:] {
 			t.repo.ProcessHeader(h.ctx, hd)
 		}
